@@ -393,6 +393,10 @@ func checkEqCoverage(r *RuleResult, p *Prog, fname string, ea *eqAnalysis, T *ty
 				continue
 			}
 			ua, ub := ea.uses[0][path], ea.uses[1][path]
+			if _, listed := ign.table[key]; listed {
+				r.CheckExc(ign.table, key)
+				continue
+			}
 			if ua != nil && ub != nil && ua.whole && ub.whole {
 				r.OK(key, true, "read through both operands")
 				continue
